@@ -22,6 +22,7 @@ A thorough-tier mode runs the same workloads with real, free-running threads (di
 import ast
 import itertools
 import json
+import re
 import os
 import random
 import sys
@@ -697,8 +698,37 @@ def _spy_call(rec_ord, kind, args, effect):
             ctx.in_storage_since = None
 
 
+# Key / metadata-key / category TEXTS.  A workload names keys by small ints; which text stands for key n is the case's
+# "naming" (default: k<n>, m<n>, category "cat").  Key and category texts are free text of the recorder's user - the
+# TapeRecorder's own input keys embed the captured arguments as json, categories are e.g. web routes - and no part of the
+# property depends on them: every naming is a bijection number <-> text with exactly one digit group in a key text.
+NAMINGS = {
+    None: (u'k%d', u'm%d', u'cat'),
+    "tape-recorder": (u'input: fetch args={"py/tuple": [%d]}, kwargs=[]', u'm%d', u'cat'),
+    "route-category": (u'k%d', u'm%d', u'GET /users/{id}'),
+    "format-fields": (u'{k%d}', u'{m%d}', u'{0}'),
+    "lone-brace": (u'k%d}', u'm%d{', u'cat{'),
+    "percent": (u'%%s k%d %%(x)s %%', u'm%d %%d', u'c%%s'),
+    "unicode": (u'cl\u00e9 %d \u2713', u'm%d \u00e9', u'cat\u00e9gorie'),
+}
+NAMING = NAMINGS[None]
+_NUM = re.compile(r'\d+')
+
+
+def kname(n):
+    return NAMING[0] % n
+
+
+def mname(n):
+    return NAMING[1] % n
+
+
+def category():
+    return NAMING[2]
+
+
 def _key_num(k):
-    return int(k[1:])
+    return int(_NUM.search(k).group())
 
 
 # Values.  A value of a workload is a plain JSON int (what the short and long workloads always used: unique per request)
@@ -808,15 +838,15 @@ def request(cas, recs, op, late=False):
     """One request through the public API of the cassette under test (or of the synchronous twin)."""
     r = recs[op['rec']]
     if op['k'] == 'set':
-        r.set_data('k%d' % op['key'], dec(op['val']))
+        r.set_data(kname(op['key']), dec(op['val']))
     elif op['k'] == 'meta':
-        r.add_metadata(dict(('m%d' % k, dec(v)) for k, v in op['items']))
+        r.add_metadata(dict((mname(k), dec(v)) for k, v in op['items']))
     elif op['k'] == 'metamut':
-        d = dict(('m%d' % k, dec(v)) for k, v in op['items'])
+        d = dict((mname(k), dec(v)) for k, v in op['items'])
         if late:        # (twin only) what the request would be if the caller's later change came first
-            d['m%d' % op['mkey']] = op['mval']
+            d[mname(op['mkey'])] = op['mval']
         r.add_metadata(d)
-        d['m%d' % op['mkey']] = op['mval']      # the caller goes on using its own dict
+        d[mname(op['mkey'])] = op['mval']      # the caller goes on using its own dict
     elif op['k'] == 'abort':
         cas.abort_recording(r)
     else:
@@ -830,7 +860,7 @@ def run_twin(case, order, late=False):
     SPY_CTX, S = SpyCtx(fail_table(case)), None
     try:
         spy = SpyCassette()
-        recs = [spy.create_new_recording('cat') for _ in range(case['nrec'])]
+        recs = [spy.create_new_recording(category()) for _ in range(case['nrec'])]
         flags = []          # outcome per request that goes to the storage (an abort does not: T:59 closes the object)
         for p, i in order:
             ab = case['work'][p][i]['k'] == 'abort'
@@ -916,7 +946,7 @@ def run_once(case, policy, gran):
         cas = amod.AsyncRecordOnlyTapeCassette(spy, flush_interval=0.01, timeout_on_close=5)
         state['cas'] = cas
         cas.start()
-        recs = [cas.create_new_recording('cat') for _ in range(case['nrec'])]
+        recs = [cas.create_new_recording(category()) for _ in range(case['nrec'])]
 
         def body(p, ops):
             def run():
@@ -1120,7 +1150,7 @@ def real_once(case, delay, switch, interval=0.002, burst=False):
     try:
         cas = amod.AsyncRecordOnlyTapeCassette(spy, flush_interval=interval, timeout_on_close=30)
         cas.start()
-        recs = [cas.create_new_recording('cat') for _ in range(case['nrec'])]
+        recs = [cas.create_new_recording(category()) for _ in range(case['nrec'])]
         go = threading.Event()
 
         def body(p, ops):
@@ -1180,6 +1210,8 @@ def real_once(case, delay, switch, interval=0.002, burst=False):
 
 # --------------------------------------------------------------------------------------------------
 def run_c12(case):
+    global NAMING
+    NAMING = NAMINGS[case.get('naming')]
     kind = case['sched']['kind']
     if kind == 'gate':
         return dict(gate=lock_gate())
